@@ -9,8 +9,10 @@
    (harness/src/bin/parsefuzz.rs, `abs_module` / `abs_component`) computes it with its own defensive wasmparser
    pass; wasmparser itself (framing, LEB decoding, operator decoding) is outside the model.
 
-   The panic sites are numbered; `known_panic_sites` is the committed table of the known ones.  Every one of
-   them is a genuine defect of /repo (see known_findings.json D09a..D09l). *)
+   Until the repairs of D09a-D09l (`fix:` commits of /repo) the glue code panicked at twelve sites (classes 901..912);
+   every one of them now returns Err or -- where the data is optional metadata (producers fields, names of functions
+   whose body comes later) -- handles the input.  `known_panic_sites` is the committed table of known panic sites: it
+   is empty, and the model below has no panicking branch left. *)
 From Coq Require Import List NArith Bool.
 Import ListNotations.
 Local Open Scope N_scope.
@@ -20,23 +22,16 @@ Local Open Scope N_scope.
 
 Inductive outcome := OOk | OErr | OPanic (k : N) | OUnmodelled.
 
-Definition site_name_func_index   := 901. (* mod.rs parse_internal: code_sections[rel_idx] -- function name for a body not (yet) seen *)
-Definition site_producers_none    := 902. (* mod.rs parse_internal: producers .next().unwrap() -- zero fields *)
-Definition site_producers_field   := 903. (* mod.rs parse_internal: .expect("producers field") -- first field unreadable / unknown field name *)
-Definition site_producers_values  := 904. (* mod.rs parse_internal: .expect("values") -- a value of the first field unreadable *)
-Definition site_tag_section       := 905. (* mod.rs parse_internal: panic!("Error encored in tag section!") *)
-Definition site_const_expr_op     := 906. (* types.rs InitExpr::eval: panic!("Invalid constant expression") -- operator outside the 16 listed *)
-Definition site_func_type_missing := 907. (* mod.rs parse_internal: types[&functions[index]] -- type index not defined *)
-Definition site_func_type_kind    := 908. (* module_types.rs Types::params: panic!("Not a function!") *)
-Definition site_namemap           := 909. (* wrappers.rs namemap_parser2encoder: name.unwrap() *)
-Definition site_indirect_namemap  := 910. (* wrappers.rs indirect_namemap_parser2encoder: name.unwrap() *)
-Definition site_comp_namemap      := 911. (* wrappers.rs add_to_namemap: name.unwrap() *)
-Definition site_comp_slice        := 912. (* component.rs parse_comp: &wasm[unchecked_range...] *)
-
-Definition known_panic_sites : list N :=
-  [site_name_func_index; site_producers_none; site_producers_field; site_producers_values; site_tag_section;
-   site_const_expr_op; site_func_type_missing; site_func_type_kind; site_namemap; site_indirect_namemap;
-   site_comp_namemap; site_comp_slice].
+(* the former site classes, kept for reference (known_findings.json `fixed`):
+   901 name-section function index (code_sections[rel_idx])      -> names are applied after the scan
+   902/903/904 producers .unwrap() / .expect(..)                 -> a producers section is an opaque custom section
+   905 tag section panic!                                        -> Err
+   906 InitExpr::eval "Invalid constant expression"              -> Err
+   907/908 types[&functions[index]] / Types::params              -> Err
+   909/910 name map unwraps (module)                             -> Err
+   911 component name map unwrap                                 -> Err
+   912 &wasm[unchecked_range..] in parse_comp                    -> Err *)
+Definition known_panic_sites : list N := [].
 
 (* ---------------------------------------------------------------------------------------------- *)
 (* the abstraction of a core module's payload stream *)
@@ -46,7 +41,7 @@ Inductive xop :=
 | XOk        (* one of the 16 operators eval translates *)
 | XEnd       (* `end` *)
 | XBad       (* any other operator *)
-| XReadErr.  (* the operators reader fails (never observed: ConstExpr::from_reader has read the same bytes before) *)
+| XReadErr.  (* the operators reader fails (never observed: ConstExpr::from_reader has read the same bytes before); eval returns Err *)
 (* (operators in reading order up to and including the first that stops eval ; is there data after that `end`) *)
 Definition cexpr := (list xop * bool)%type.
 
@@ -90,10 +85,10 @@ Fixpoint eval_ops (ops : list xop) (trailing : bool) : outcome :=
   match ops with
   | [] => OUnmodelled
   | XOk :: r => eval_ops r trailing
-  | XEnd :: _ => if trailing then OUnmodelled (* panic!("There was more data after the function end!") -- guarded, never observed *)
+  | XEnd :: _ => if trailing then OErr (* "more data after the end of the constant expression" -- never observed *)
                  else OOk
-  | XBad :: _ => OPanic site_const_expr_op
-  | XReadErr :: _ => OUnmodelled            (* reader.read().unwrap() -- guarded, never observed *)
+  | XBad :: _ => OErr                        (* operator outside the 16 listed: Err(ConversionError) *)
+  | XReadErr :: _ => OErr                    (* reader.read()? -- never observed *)
   end.
 Definition eval_cexpr (e : cexpr) : outcome := eval_ops (fst e) (snd e).
 
@@ -112,7 +107,7 @@ Fixpoint run_data (l : list ditem) : outcome * N :=
   | DActive e :: r => match eval_cexpr e with OOk => let '(o, n) := run_data r in (o, n + 1) | o => (o, 0) end
   end.
 Fixpoint run_tags (l : list bool) : outcome :=
-  match l with [] => OOk | true :: r => run_tags r | false :: _ => OPanic site_tag_section end.
+  match l with [] => OOk | true :: r => run_tags r | false :: _ => OErr end.
 
 (* ---------------------------------------------------------------------------------------------- *)
 (* the state of the scan that matters for the outcome *)
@@ -128,38 +123,32 @@ Record mstate := mkMS {
   ms_ndata : N }.          (* data.len() *)
 Definition ms0 := mkMS 0 [] [] 0 0 false None 0.
 
-Fixpoint run_fnames (st : mstate) (l : list nitem) : outcome :=
+(* function names are collected during the scan and attached afterwards, to the imports and code bodies that exist
+   then; a name for a function that does not exist is dropped.  Only an unreadable entry stops the scan. *)
+Fixpoint run_fnames (l : list nitem) : outcome :=
   match l with
   | [] => OOk
   | NIErr :: _ => OErr
-  | NIdx i :: r =>
-      if i <? ms_nimpf st then run_fnames st r
-      else if (i - ms_nimpf st) <? ms_ncode st then run_fnames st r
-      else OPanic site_name_func_index
+  | NIdx _ :: r => run_fnames r
   end.
 Fixpoint run_indirect (l : list iitem) : outcome :=
   match l with
   | [] => OOk
-  | IIErr :: _ => OPanic site_indirect_namemap
+  | IIErr :: _ => OErr
   | IIMap true :: r => run_indirect r
-  | IIMap false :: _ => OPanic site_namemap
+  | IIMap false :: _ => OErr
   end.
-Fixpoint run_name (st : mstate) (l : list nsub) : outcome :=
+Fixpoint run_name (l : list nsub) : outcome :=
   match l with
   | [] => OOk
   | NSErr :: _ => OErr
-  | NSFunc f :: r => match run_fnames st f with OOk => run_name st r | o => o end
-  | NSMap ok :: r => if ok then run_name st r else OPanic site_namemap
-  | NSInd i :: r => match run_indirect i with OOk => run_name st r | o => o end
-  | NSOther :: r => run_name st r
+  | NSFunc f :: r => match run_fnames f with OOk => run_name r | o => o end
+  | NSMap ok :: r => if ok then run_name r else OErr
+  | NSInd i :: r => match run_indirect i with OOk => run_name r | o => o end
+  | NSOther :: r => run_name r
   end.
-Definition run_producers (p : prod) : outcome :=
-  match p with
-  | PNone => OPanic site_producers_none
-  | PFieldErr => OPanic site_producers_field
-  | PField true => OOk
-  | PField false => OPanic site_producers_values
-  end.
+(* a producers section is kept like every other custom section; its fields are not looked at *)
+Definition run_producers (p : prod) : outcome := OOk.
 
 (* one payload: either the scan goes on with a new state, or it stops with an outcome *)
 Definition step (mm : bool) (st : mstate) (e : mev) : mstate + outcome :=
@@ -190,7 +179,7 @@ Definition step (mm : bool) (st : mstate) (e : mev) : mstate + outcome :=
       else if negb mm && nzmem then inr OErr
       else inl (mkMS (ms_nimpf st) (ms_types st) (ms_funcs st) (ms_code_count st) (ms_ncode st + 1) (ms_start st) (ms_data_count st) (ms_ndata st))
   | MTags l => match run_tags l with OOk => go | o => inr o end
-  | MName l => match run_name st l with OOk => go | o => inr o end
+  | MName l => match run_name l with OOk => go | o => inr o end
   | MProducers p => match run_producers p with OOk => go | o => inr o end
   | MCustom => go
   | MUnknown => inr OErr
@@ -198,15 +187,15 @@ Definition step (mm : bool) (st : mstate) (e : mev) : mstate + outcome :=
   | MUnmodelled => inr OUnmodelled
   end.
 
-(* after the scan: the count checks, then one Function per code body -- types[&functions[index]].params() *)
+(* after the scan: the count checks, then one Function per code body -- its type must be a defined function type *)
 Fixpoint check_func_types (types : list bool) (funcs : list N) (n : nat) {struct n} : outcome :=
   match n, funcs with
   | O, _ => OOk
   | S n', [] => OUnmodelled   (* excluded by the count check *)
   | S n', t :: r =>
       match nth_error types (N.to_nat t) with
-      | None => OPanic site_func_type_missing
-      | Some false => OPanic site_func_type_kind
+      | None => OErr
+      | Some false => OErr
       | Some true => check_func_types types r n'
       end
   end.
@@ -247,15 +236,15 @@ Fixpoint run_cname (l : list csub) : outcome :=
   match l with
   | [] => OOk
   | CSErr :: _ => OErr
-  | CSMap ok :: r => if ok then run_cname r else OPanic site_comp_namemap
+  | CSMap ok :: r => if ok then run_cname r else OErr
   | CSOther :: r => run_cname r
   end.
 Definition cstep (mm : bool) (e : cev) : outcome :=
   match e with
   | CErr => OErr
   | CItems ok => if ok then OOk else OErr
-  | CModule ok m => if ok then parse_glue mm m else OPanic site_comp_slice
-  | CEnter ok => if ok then OOk else OPanic site_comp_slice
+  | CModule ok m => if ok then parse_glue mm m else OErr   (* the section is longer than the enclosing slice: unexpected end-of-file *)
+  | CEnter ok => if ok then OOk else OErr
   | CName l => run_cname l
   | CUnknown => OErr
   | CSkip => OOk
